@@ -326,3 +326,118 @@ func init() {
 	ExtraClause("C60", "Also: the MPLS label stack entry round-trips through marshal and parseMPLSLabelStack for every 20-bit label, 3-bit TC, S and 8-bit TTL (bit-provenance interpretation).")
 	ExtraClause("C61", "Also: a level is cleared wholesale only when the new time is at least numBuckets bucket-widths past its end.")
 }
+
+func init() {
+	// C49 (seed: X + Off added in uint32 and wrapping into the packet): the indirect-load offset is
+	// computed in int, after each 32-bit operand has been widened, so a far out-of-bounds offset stays out of bounds.
+	ExtraClause("C49", "Also: loadIndirect adds the offset and X as ints (each operand widened first), not as wrapping uint32.")
+	RegisterExtra("C49", func(c *Ctx) {
+		fn := c.MustFn("bpf.loadIndirect")
+		if fn == nil {
+			return
+		}
+		n, ok := 0, true
+		why := ""
+		for _, in := range Calls("bpf.loadCommon").F(c.P, fn) {
+			n++
+			arg := in.(*ssa.Call).Call.Args[1]
+			add, isAdd := arg.(*ssa.BinOp)
+			if !isAdd || add.Op != token.ADD {
+				ok, why = false, "the offset passed to loadCommon is not a sum: "+Term(arg)
+				continue
+			}
+			b, _ := add.Type().Underlying().(*types.Basic)
+			if b == nil || b.Kind() != types.Int {
+				ok, why = false, "the sum is computed in "+add.Type().String()+", where it can wrap"
+			}
+			for _, op := range []ssa.Value{add.X, add.Y} {
+				cv, isConv := op.(*ssa.Convert)
+				if !isConv {
+					ok, why = false, "operand "+Term(op)+" is not widened before the addition"
+					continue
+				}
+				if sb, _ := cv.X.Type().Underlying().(*types.Basic); sb == nil || sb.Kind() != types.Uint32 {
+					ok, why = false, "operand "+Term(op)+" is not a widened uint32"
+				}
+			}
+		}
+		if n == 0 {
+			c.Undecided("widened-add", "bpf.loadIndirect: offset passed to loadCommon", "no call of loadCommon")
+			return
+		}
+		c.Check(ok, "widened-add", "bpf.loadIndirect: offset = int(Off) + int(X), added after widening", fn.Pos(), "", why)
+	})
+}
+
+func init() {
+	// C40 (seed: attribute spans shifted on copies during buffer compaction): what the renderer writes for a
+	// start tag comes from the attribute spans the tokenizer recorded; when the buffer is compacted every such
+	// span has to move with it (shared with C39).
+	ExtraClause("C40", "Also: readByte's buffer compaction shifts every span-typed location of the Tokenizer (data, pendingAttr, attr) by the old raw.start (shared with C39): attribute keys and values must still denote the same bytes when Token/Render use them.")
+	RegisterExtra("C40", func(c *Ctx) {
+		fnRB := c.MustFn(c39T + "readByte")
+		if fnRB == nil {
+			return
+		}
+		stores := c.P.HtmStoresUnder("html.Tokenizer")
+		byPath := map[string][]HtmStore{}
+		for _, s := range stores {
+			byPath[s.Path] = append(byPath[s.Path], s)
+		}
+		c39SpanShift(c, fnRB, byPath)
+	})
+}
+
+func init() {
+	// C41 (seed: </body> tested in button scope while </html> tests body in default scope): the end tags
+	// </body> and </html> both ask "is a body element in scope"; </html> then re-processes an implied </body>.
+	// If the two tests use different scopes the implied end tag can be ignored for ever and the parse loop does not terminate.
+	ExtraClause("C41", "Also (sibling agreement): every elementInScope test for the body element inside inBodyIM uses the same scope constant.")
+	RegisterExtra("C41", func(c *Ctx) {
+		fn := c.MustFn("html.inBodyIM")
+		body, okB := c.P.ConstInt("html/atom.Body")
+		if fn == nil || !okB {
+			c.Undecided("sibling-agreement", "html.inBodyIM: body-in-scope tests", "anchor not found")
+			return
+		}
+		scopes := map[string]int{}
+		n := 0
+		for _, in := range Calls("(*html.parser).elementInScope").F(c.P, fn) {
+			call := in.(*ssa.Call)
+			if len(call.Call.Args) < 3 {
+				continue
+			}
+			sl, ok := call.Call.Args[2].(*ssa.Slice)
+			if !ok {
+				continue
+			}
+			al, ok := sl.X.(*ssa.Alloc)
+			if !ok || al.Referrers() == nil {
+				continue
+			}
+			var tags []int64
+			for _, r := range *al.Referrers() {
+				ia, ok := r.(*ssa.IndexAddr)
+				if !ok || ia.Referrers() == nil {
+					continue
+				}
+				for _, rr := range *ia.Referrers() {
+					if st, ok := rr.(*ssa.Store); ok {
+						if k, isC := st.Val.(*ssa.Const); isC {
+							tags = append(tags, k.Int64())
+						}
+					}
+				}
+			}
+			if len(tags) == 1 && tags[0] == body {
+				n++
+				scopes[Term(call.Call.Args[1])]++
+			}
+		}
+		if n < 2 {
+			c.Undecided("sibling-agreement", "html.inBodyIM: body-in-scope tests", fmt.Sprintf("%d test(s) found, expected the </body> and </html> cases", n))
+			return
+		}
+		c.Check(len(scopes) == 1, "sibling-agreement", "html.inBodyIM: every `body element in scope` test uses the same scope", fn.Pos(), fmt.Sprintf("%d tests", n), fmt.Sprintf("scopes used: %v", scopes))
+	})
+}
